@@ -116,13 +116,14 @@ def k_c20(ctx):
             ledgers.append((ls, ledger.render(ls)))
         for k, v in list(K.corpus_ledgers(gbp_only=False).items())[:8]: ledgers.append((v, ledger.render(v)))
         # histories that go on for years: a capital return or accumulation long after an earlier disposal of the same security
+        late = []
         for i in range(6):
             ls = gen.gen_ledger(rng, events=0, splits=0, uncovered=0, dividends=0.05, nsec=1, max_year=2022)
             t = ls[0].tick; last = max(l.date for l in ls)
             days = K.per_day(ls, t.upper()); held = sum(x["b"] - x["s"] for x in days.values())
             if held > 0:
                 ls = ls + [Line(last + datetime.timedelta(days=rng.choice([200, 500, 800])), t, rng.choice(["CAPRETURN", "ACCUMULATION"]), gen.dec_str(held), rng.choice(["5", "12.5"]), "GBP", None)]
-            ledgers.append((ls, ledger.render(ls)))
+            ledgers.append((ls, ledger.render(ls))); late.append((ls, ledger.render(ls)))
         # ledgers that also hold disposals in tax years the exemption table does not cover: a report of a covered year must still be
         # answered, equal the CLI's and have each of its disposals explained
         special = []
@@ -135,10 +136,18 @@ def k_c20(ctx):
         nsess = ctx.n(24, 1200)
         for si in range(nsess):
             reqs = gen_requests(rng, rng.randint(5, 40 if ctx.thorough() else 25), ledgers)
-            if si < len(special):
-                sl, sd = special[si]
-                for y in sorted({K.tax_year(l.date) for l in sl if 2014 <= K.tax_year(l.date) <= 2025})[:3]:
-                    reqs.insert(rng.randint(0, len(reqs)), ("calculate", ("tools/call", {"name": "calculate_report", "arguments": {"transactions": sd, "year": y}})))
+            # a scripted opening on one of the ledgers the generator built for a purpose: the overview first, then single years of the same
+            # ledger, then an explanation - what a client does, and what a cache keyed too coarsely or a shortcut in one tool gets wrong
+            script = special + late
+            if si < len(script):
+                sl, sd = script[si]
+                ys = sorted({K.tax_year(l.date) for l in sl if l.kind == "SELL" and 2014 <= K.tax_year(l.date) <= 2025})
+                block = [("calculate", ("tools/call", {"name": "calculate_report", "arguments": {"transactions": sd}}))]
+                for y in (ys[:1] + ys[-1:] if len(ys) > 1 else ys):
+                    block.append(("calculate", ("tools/call", {"name": "calculate_report", "arguments": {"transactions": sd, "year": y}})))
+                sells = [l for l in sl if l.kind == "SELL"]
+                if sells: block.append(("explain", ("tools/call", {"name": "explain_matching", "arguments": {"transactions": sd, "disposal_date": sells[0].date.isoformat(), "ticker": sells[0].tick}})))
+                reqs = block + reqs
             pipelined = (si % 2 == 1); id_style = rng.choice(["int", "str"])
             res = run_session(os.path.join(root, "s%d" % si), reqs, pipelined, id_style)
             ctx.evaluations += len(reqs); ctx.traces += 1
@@ -179,15 +188,15 @@ def k_c20(ctx):
         ctx.count("distinct_requests", len(answers)); ctx.count("requests_seen_more_than_once", sum(1 for s in answers.values() if sum(len(w) for w in s.values()) > 1))
         # ---- equals the CLI; explain covers every listed disposal
         ncli = 0
-        sp = {d for _, d in special}
+        sp = {d for _, d in special + late}
         def first(kv):
-            try: a = json.loads(kv[0])[1]["arguments"]; return 0 if a.get("transactions") in sp and isinstance(a.get("year"), int) and 2014 <= a["year"] <= 2025 else 1
+            try: a = json.loads(kv[0])[1]["arguments"]; return 0 if a.get("transactions") in sp and (a.get("year") is None or isinstance(a.get("year"), int) and 2014 <= a["year"] <= 2025) else 1
             except Exception: return 1
         for key, seen in sorted(answers.items(), key=first):
             method, params = json.loads(key)
             if method != "tools/call" or params.get("name") != "calculate_report" or not isinstance(params["arguments"].get("transactions"), str): continue
             if params["arguments"]["transactions"].lstrip().startswith("["): continue
-            if ncli >= ctx.n(30, 400): break
+            if ncli >= ctx.n(45, 400): break
             a = next(iter(seen))
             year = params["arguments"].get("year")
             if year is not None and not isinstance(year, int): continue
